@@ -9,8 +9,8 @@ INFO = ("YRenderBlock (TLA+ reference): BlockValue = the text a block scalar den
         "0-2 beyond the minimum and a 13-deeper family that reaches the buffer-size path; empty lines with and without spaces; eight parent contexts (including a following sibling at the parent's own column); end of input with final newline, "
         "without, with trailing empty lines, or followed by a less-indented node). Gen_Block: TLC enumerates every list of <= 2 (quick) / 3 (thorough) lines over 8 line kinds (text, "
         "comment-like, entry-like, key-like, more-indented by space / by tab, empty with 0 / 1 spaces) x all parameters and simulates lists of <= 6 lines; each rendered stream is "
-        "replayed on the real parser (both back-ends; the buffered one exercises the raw-read path) and the scalar's value and style compared; the scanner model must agree (drift otherwise).",
-        "No indentation indicator at top level (YAML counts from -1 there, the scanner from 0: left open). An unterminated last line is always a content line.",
+        "replayed on the real parser (both back-ends; the buffered one exercises the raw-read path) and the scalar's value and style compared, and loaded (the scalar must be a string with that value); the scanner model must agree (drift otherwise).",
+        "At top level an explicit indicator is the content indentation itself (the property's wording; YAML's production counts from -1 there). An unterminated last line is a content line, or blanks only when not under keep chomping (where the readings differ).",
         "TLA+ reference semantics of block scalars; TLC-enumerated behaviours replayed into the real parser", "7/C05")
 
 
@@ -29,7 +29,7 @@ def run(ck):
     outs.append(sim)
     for o in outs:
         bad = ck.wd(os.path.basename(o) + ".bad")
-        s = vh_json(["c03", "--in", o, "--out", bad])
+        s = vh_json(["c03", "--in", o, "--out", bad, "--load", "1"])
         ck.evaluations += s["runs"]
         ck.distinct += s["distinct"]
         ck.traces += s["behaviours"]
